@@ -41,7 +41,10 @@ def _v(chain, a, b):
         return int(_VT[chain].loc[a, b])
 
 
-def _body_tcr(nrows, lens, chain, trimmed, k):
+CUSTOM_KW = dict(ntrim=2, ctrim=1, gap_penalty=7)       # caller-supplied TCRdist parameters: override the documented defaults, also for the trimming
+
+
+def _body_tcr(nrows, lens, chain, trimmed, k, custom_kw=False):
     def body():
         from pyrepseq import nn
         from models import pd_model, pw_model
@@ -59,11 +62,16 @@ def _body_tcr(nrows, lens, chain, trimmed, k):
         df = pd_model.DataFrame(cols, index=[20 + r for r in range(nrows)])
         snap = hc.shallow_snapshot(df)
         max_tcrdist = sym.sym_int("max_tcrdist", 0, 200)
-        got = nn.nearest_neighbor_tcrdist(df, chain=chain, max_edits=k, edit_on_trimmed=trimmed, max_tcrdist=max_tcrdist)
+        ckw = dict(CUSTOM_KW) if custom_kw else None
+        got = (nn.nearest_neighbor_tcrdist(df, chain=chain, max_edits=k, edit_on_trimmed=trimmed, max_tcrdist=max_tcrdist, tcrdist_kwargs=ckw) if custom_kw
+               else nn.nearest_neighbor_tcrdist(df, chain=chain, max_edits=k, edit_on_trimmed=trimmed, max_tcrdist=max_tcrdist))
         if not hc.unchanged(df, snap):
             return False, "input table modified"
+        if custom_kw and ckw != CUSTOM_KW:
+            return False, f"the caller's tcrdist_kwargs were modified: {ckw}"
+        nt, ct = (CUSTOM_KW["ntrim"], CUSTOM_KW["ctrim"]) if custom_kw else (3, 2)
         first = chains[0]
-        search = [s[3:len(s) - 2] for s in cdr3[first]] if trimmed else cdr3[first]
+        search = [s[nt:len(s) - ct] for s in cdr3[first]] if trimmed else cdr3[first]
         rows = got.tolist() if hasattr(got, "tolist") else list(got)
         seen = {}
         for row in rows:
@@ -77,6 +85,8 @@ def _body_tcr(nrows, lens, chain, trimmed, k):
         # decided by the value oracle below), on the UNtrimmed CDR3 column, with pyrepseq's documented parameters
         if seen or True:
             expect_kw = dict(use_numba=True, fixed_gappos=False, ntrim=3, ctrim=2, dist_weight=3, gap_penalty=12)
+            if custom_kw:
+                expect_kw.update(CUSTOM_KW)
             if pw_model.CALLS and (len(pw_model.CALLS) > len(chains) or any(c["kw"] != expect_kw or c["metric"] != "nb_vector_tcrdist" for c in pw_model.CALLS)):
                 return False, f"pwseqdist called with {[(c['metric'], c['kw']) for c in pw_model.CALLS]}"
         conds = []
@@ -96,7 +106,7 @@ def _body_tcr(nrows, lens, chain, trimmed, k):
     return body
 
 
-def _replay_tcr(nrows, lens, chain, trimmed, k):
+def _replay_tcr(nrows, lens, chain, trimmed, k, custom_kw=False):
     def replay(inputs):
         import numpy as np
         import pandas as pd
@@ -108,7 +118,11 @@ def _replay_tcr(nrows, lens, chain, trimmed, k):
             """the CDR3 distance of the witness (pwseqdist is an arbitrary non-negative distance on the solver side); the deterministic
             stand-in where the witness leaves a pair open"""
             key = f"pw{tag}_{min(i, j)}_{max(i, j)}"
-            return float(int(inputs[key])) if key in inputs and i != j else float(ConcretePw.dist(a, b))
+            return float(int(inputs[key])) if key in inputs and i != j else float(ConcretePw.dist(a, b, **pw_kw))
+        pw_kw = dict(ntrim=3, ctrim=2, dist_weight=3, gap_penalty=12)
+        if custom_kw:
+            pw_kw.update(CUSTOM_KW)
+        seen_kw = []
 
         class WitnessPw:
             metrics = ConcretePw.metrics
@@ -117,6 +131,7 @@ def _replay_tcr(nrows, lens, chain, trimmed, k):
             @classmethod
             def apply_pairwise_sparse(cls, metric=None, seqs=None, pairs=None, **kw):
                 cls.ncalls += 1
+                seen_kw.append(dict(kw))
                 return np.array([cdr3_dist(cls.ncalls, int(i), int(j), seqs[int(i)], seqs[int(j)]) for i, j in pairs], dtype=float)
         nn.pwseqdist = WitnessPw
         cols, genes, cdr3 = {}, {}, {}
@@ -128,11 +143,16 @@ def _replay_tcr(nrows, lens, chain, trimmed, k):
         df = pd.DataFrame(cols, index=[20 + r for r in range(nrows)])
         before = df.copy(deep=True)
         mt = int(inputs["max_tcrdist"])
-        got = nn.nearest_neighbor_tcrdist(df, chain=chain, max_edits=k, edit_on_trimmed=trimmed, max_tcrdist=mt)
+        ckw = dict(CUSTOM_KW) if custom_kw else None
+        got = (nn.nearest_neighbor_tcrdist(df, chain=chain, max_edits=k, edit_on_trimmed=trimmed, max_tcrdist=mt, tcrdist_kwargs=ckw) if custom_kw
+               else nn.nearest_neighbor_tcrdist(df, chain=chain, max_edits=k, edit_on_trimmed=trimmed, max_tcrdist=mt))
+        want_kw = dict(use_numba=True, fixed_gappos=False, **pw_kw)
+        if any(kw_ != want_kw for kw_ in seen_kw) or (custom_kw and ckw != CUSTOM_KW):
+            return False, f"pwseqdist received {seen_kw}, expected {want_kw} (caller's tcrdist_kwargs afterwards: {ckw})"
         if not df.equals(before):
             return False, "input table modified"
         first = chains[0]
-        search = [s[3:len(s) - 2] for s in cdr3[first]] if trimmed else cdr3[first]
+        search = [s[pw_kw["ntrim"]:len(s) - pw_kw["ctrim"]] for s in cdr3[first]] if trimmed else cdr3[first]
         want = set()
         for i in range(nrows):
             for j in range(nrows):
@@ -181,6 +201,9 @@ def conditions(tier):
             (2, (6, 6), "both", True, 1), (3, (6, 6, 5), "beta", True, 1)]
     if T:
         cfgs += [(3, (6, 7, 6), "both", True, 2), (3, (2, 2, 1), "alpha", False, 2), (3, (7, 7, 7), "beta", True, 2)]
+    out.append(Condition("C14/tcrdist/rows=2/len=5,5/beta/trimmed/k=1/caller-tcrdist_kwargs", _body_tcr(2, (5, 5), "beta", True, 1, True),
+                         _replay_tcr(2, (5, 5), "beta", True, 1, True), budget=600, models=M, setup=_setup,
+                         bounds=f"2 rows, CDR3 length 5, chain=beta, tcrdist_kwargs={CUSTOM_KW}: parameters handed to pwseqdist and used for the trimming"))
     for nrows, lens, chain, trimmed, k in cfgs:
         out.append(Condition(f"C14/tcrdist/rows={nrows}/len={','.join(map(str, lens))}/{chain}/" + ("trimmed" if trimmed else "untrimmed") + f"/k={k}",
                              _body_tcr(nrows, lens, chain, trimmed, k), _replay_tcr(nrows, lens, chain, trimmed, k), budget=600 if not T else 3000,
